@@ -138,11 +138,18 @@ def parse_output(out):
     if m:
         r.generated = int(m.group(1))
         r.distinct = int(m.group(2))
+    else:
+        ms = re.search(r'The number of states generated: (\d+)', out)
+        if ms:      # simulation mode
+            r.generated = int(ms.group(1))
+            r.distinct = int(ms.group(1))
     m = _RE_DEPTH.search(out)
     if m:
         r.depth = int(m.group(1))
     r.ok = 'Model checking completed. No error has been found.' in out \
-        or 'No error has been found' in out
+        or 'No error has been found' in out \
+        or ('Simulation using seed' in out and 'Error:' not in out
+            and 'The number of states generated' in out)
     r.violated = _RE_INV.findall(out)
     if 'Action property' in out and 'violated' in out:
         mm = re.search(r'Action property (\S+) is violated', out)
